@@ -33,6 +33,8 @@ def is_zero(x):
     "syntactic zero (z3 numerals are hash-consed: one AST per value while it is alive)"
     if x is _Z0:
         return True
+    if isinstance(x, tuple):
+        return all(is_zero(y) for y in x)
     if isinstance(x, z3.ExprRef):
         return x.get_id() == _Z0_ID
     return x == 0
@@ -41,6 +43,8 @@ def is_zero(x):
 def is_one(x):
     if x is _Z1:
         return True
+    if isinstance(x, tuple):
+        return False
     if isinstance(x, z3.ExprRef):
         return x.get_id() == _Z1_ID
     return x == 1
